@@ -11,10 +11,11 @@ use std::time::Duration;
 
 pub mod c03;
 pub mod c04;
-// pub mod c07s;
+pub mod c07s;
+pub mod c10c;
 pub mod c11;
 pub mod c12;
-// pub mod c15;
+pub mod c15;
 pub mod c17;
 pub mod fake;
 
